@@ -83,6 +83,8 @@ class TU:
         newctx, newrec = ctx, rec
         if k == "NamespaceDecl":
             newctx = ctx if n.get("isInline") else ctx + ([name] if name else ["(anon)"])
+            if nid:
+                self.qual[nid] = "::".join(newctx)
         elif k in RECORD_KINDS:
             newctx = ctx + [name or "(anon)"]
             newrec = "::".join(newctx)
@@ -93,8 +95,8 @@ class TU:
         elif k in FUNC_KINDS:
             pid = n.get("parentDeclContextId")
             fctx = ctx
-            if pid and pid in self.qual and self.byid.get(pid, {}).get("kind") in RECORD_KINDS:
-                fctx = self.qual[pid].split("::")      # out-of-line member definition: lexically in the namespace, semantically in the class
+            if pid and pid in self.qual and self.byid.get(pid, {}).get("kind") in RECORD_KINDS + ("NamespaceDecl",):
+                fctx = [x for x in self.qual[pid].split("::") if x]     # out-of-line definition: lexically elsewhere, semantically in the class / namespace
             self.qual[nid] = "::".join(fctx + [name or "?"])
             n["_ctxrec"] = rec
             newctx = fctx + [name or "?"]
@@ -1035,6 +1037,7 @@ def gen_globals(lib, repo):
     syms = set()
     member = ""
     nsec = {}
+    per_tu = {}
     for line in p.stdout.splitlines():
         m = re.match(r"^(\S+\.o):\s+file format", line)
         if m:
@@ -1048,6 +1051,14 @@ def gen_globals(lib, repo):
             continue
         name = re.sub(r"^\.hidden ", "", name)
         nsec[sec.split(".")[1] if sec.startswith(".") and len(sec.split(".")) > 1 else sec] = nsec.get(sec.split(".")[1] if sec.startswith(".") and len(sec.split(".")) > 1 else sec, 0) + 1
+        tu_name = re.sub(r"^asmjit_", "", member).replace(".o", "")
+        cls = ("read-only (.rodata)" if sec.startswith(".rodata") else
+               "relocated read-only (.data.rel.ro: vtables, typeinfo, constant pointer tables)" if sec.startswith(".data.rel.ro") else
+               "thread-local" if sec.startswith((".tdata", ".tbss")) else
+               "compiler bookkeeping" if name.startswith(("DW.ref.", "__")) else
+               "WRITABLE" if (sec == "*COM*" or re.match(r"^\.(data|bss)(\.|$)", sec)) else "other:" + sec)
+        d = per_tu.setdefault(tu_name, {})
+        d[cls] = d.get(cls, 0) + 1
         writable = sec == "*COM*" or re.match(r"^\.(data|bss)(\.|$)", sec)
         if not writable or sec.startswith(".data.rel.ro"):
             continue
@@ -1057,6 +1068,7 @@ def gen_globals(lib, repo):
         name = re.sub(r"asmjit::v\d+_\d+::", "asmjit::", name)
         syms.add((tu, "w", name))
     gen_globals.sections = nsec
+    gen_globals.per_tu = per_tu
     # classify every symbol by the declared type of the variable (clang AST of the translation unit that defines it)
     kinds = {}
     for tu_name in sorted(set(t for t, _, _ in syms)):
@@ -1195,6 +1207,16 @@ class StaticsBuilder:
             return W(inner[0], "rw")
         if k == "UnaryOperator" and n.get("opcode") == "&":
             return W(inner[0], "w")          # address taken: conservative
+        if k == "CXXMemberCallExpr" and inner:
+            # flag.store(<non-zero literal>) on an atomic static: the flag is set
+            c0 = Builder._strip(inner[0])
+            if c0.get("kind") == "MemberExpr" and c0.get("name") == "store" and len(inner) >= 2:
+                obj = self.static_var(Builder._strip((c0.get("inner") or [{}])[0]))
+                a0 = Builder._strip(inner[1])
+                while a0.get("kind") in ("ImplicitCastExpr", "CXXFunctionalCastExpr", "CStyleCastExpr") and a0.get("inner"):
+                    a0 = Builder._strip(a0["inner"][-1])
+                if obj and obj[1] and a0.get("kind") == "IntegerLiteral" and str(a0.get("value", "0")) not in ("0", ""):
+                    return ("vset", fn, obj[0])
         if k in ("CallExpr", "CXXMemberCallExpr", "CXXOperatorCallExpr"):
             ev = []
             c0 = Builder._strip(inner[0]) if inner else {}
@@ -1233,7 +1255,8 @@ class StaticsBuilder:
             flag = self.zero_test_flag(pre[-1]) if pre else None
             cond = seq([W(c) for c in pre])
             if flag:
-                return seq([cond, alt(("vguard", flag, W(th)), W(el) if el else ("skip",))])
+                g = ("vguard", flag, W(th))          # entered iff the flag is zero; skipping is part of the guard's semantics
+                return seq([cond, alt(g, W(el)) if el else g])
             return seq([cond, alt(W(th), W(el) if el else ("skip",))])
         if k in ("WhileStmt", "DoStmt", "ForStmt", "CXXForRangeStmt", "SwitchStmt"):
             return loop(seq([alt(W(c), ("skip",)) for c in inner]))
@@ -1276,7 +1299,7 @@ class StaticsBuilder:
             self.stack.pop()
             self.memo[key] = body
         t = self.memo[key]
-        return ("vinl", t) if t not in (("skip",), ("ret",)) else ("skip",)
+        return ("vfn", t) if t not in (("skip",), ("ret",)) else ("skip",)
 
 
 def mark_main_file(tu):
@@ -1312,8 +1335,10 @@ def emit_vtree(t):
         return "VPlain %s %s %s" % (coq_str(t[1]), coq_str(t[2]), "true" if t[3] == "W" else "false")
     if k == "vcall":
         return "VCall %s %s" % (coq_str(t[1]), coq_str(t[2]))
-    if k == "vinl":
-        return emit_vtree(t[1])
+    if k == "vset":
+        return "VSet %s %s" % (coq_str(t[1]), coq_str(t[2]))
+    if k == "vfn":
+        return "VFn (%s)" % emit_vtree(t[1])
     if k == "vguard":
         return "VGuard %s (%s)" % (coq_str(t[1]), emit_vtree(t[2]))
     if k == "seq":
@@ -1359,6 +1384,10 @@ def gen_statics(repo):
     out.append("  [" + ";\n   ".join("(%s,\n    %s)" % (coq_str(sig), emit_vtree(t)) for sig, t in sorted(entries)) + "].")
     out.append("")
     out.append("Lemma statics_ok : vcheck_program static_entry_points = [].")
+    out.append("Proof. vm_compute. reflexivity. Qed.")
+    out.append("")
+    out.append("(* value-aware part: one normal call of VirtMem::info / CpuInfo::host leaves its guard flag set *)")
+    out.append("Lemma statics_warmup_ok : warmup_diag static_entry_points = [].")
     out.append("Proof. vm_compute. reflexivity. Qed.")
     out.append("")
     return "\n".join(out), [s for s, _ in sorted(entries)]
